@@ -24,5 +24,6 @@ func transC01(r *Repo) []Fact {
 	}
 	out = append(out, mgrFact(mgr))
 	out = append(out, transStep(r, mgr))
+	out = append(out, transTab(r, mgr))
 	return out
 }
